@@ -144,6 +144,65 @@ def multi_cases(res, lines, impl_out, maxn, only=None):
                 impl_out.append(f"{1 if success else 0} " + (','.join(f"{1 if s else 0}:{d}" for s, d in data) or '-'))
 
 
+class CountingSub(BoboAction):
+    """sub-action object that may occupy several slots of one multi-action: its k-th call returns script[k]"""
+
+    def __init__(self, name, tag, script, log):
+        super().__init__(name)
+        self.tag, self.script, self.log, self.calls = tag, script, log, 0
+
+    def execute(self, event):
+        k = self.calls
+        self.calls += 1
+        self.log.append((self.tag, k))
+        return self.script[k], (self.tag, k)
+
+
+def multi_shared_cases(res, rng, count, only=None):
+    """the SAME action object (or distinct objects with the same name) in several slots of one multi-action: every
+    executed slot is reported, in order, with the outcome of ITS call (retry lists, [send, wait, send])."""
+    combos = []
+    for n in (2, 3, 4):
+        for slots in itertools.product(range(n), repeat=n):
+            if len(set(slots)) < n:          # at least one object occupies two slots
+                combos.append(slots)
+    picks = combos if count is None else [rng.choice(combos) for _ in range(count)]
+    for slots in picks:
+        n = len(slots)
+        for bits in (itertools.product((True, False), repeat=n) if n <= 3 else [tuple(rng.random() < 0.6 for _ in range(n)) for _ in range(4)]):
+            for stop in (True, False):
+                for same_name in (False, True):
+                    case = {'kind': 'multi-shared', 'slots': list(slots), 'outcomes': [bool(b) for b in bits], 'stop': stop, 'same_name': same_name}
+                    if only is not None and only != case:
+                        continue
+                    log = []
+                    # per-object scripts: the k-th call of object j is the k-th slot holding j
+                    scripts = {j: [bits[i] for i in range(n) if slots[i] == j] for j in set(slots)}
+                    objs = {j: CountingSub('same' if same_name else f'o{j}', j, scripts[j], log) for j in set(slots)}
+                    subs = [objs[j] for j in slots]
+                    seen = {}
+                    outs = []
+                    for i, j in enumerate(slots):
+                        k = seen.get(j, 0)
+                        seen[j] = k + 1
+                        outs.append((bool(bits[i]), (j, k)))
+                    try:
+                        success, data = BoboActionMultiSequential('ms', subs, stop).execute(cev('ms'))
+                    except Exception as e:     # noqa
+                        res.violations.append(Violation('multi-shared', f"multi-action with slots {slots} raised {e!r}", case))
+                        continue
+                    exp_s, exp_d, exp_x = multi_spec(outs, stop)
+                    res.add_case(case, nontrivial=True)
+                    res.count('multi_shared')
+                    got_x = [next(i for i in range(n) if slots[i] == j and sum(1 for q in range(i) if slots[q] == j) == k) for j, k in log]
+                    if got_x != exp_x or list(data) != exp_d or success is not exp_s:
+                        res.violations.append(Violation(
+                            'multi-shared',
+                            f"multi-action whose slots hold action objects {list(slots)} ({'same' if same_name else 'distinct'} names), "
+                            f"outcomes {case['outcomes']}, stop_on_fail={stop}: returned ({success}, {list(data)}), executed slots {got_x}; "
+                            f"the executed sub-actions gave ({exp_s}, {exp_d}), slots {exp_x}", case))
+
+
 def multi_nested_cases(res, rng, count):
     """event-dependent outcomes and nested multi-actions: oracle only"""
     for k in range(count):
@@ -649,6 +708,8 @@ def run(ctx: Ctx) -> Result:
     only = ctx.replay['replay'] if ctx.replay is not None else None
     if only is not None and only.get('kind') == 'multi':
         multi_cases(res, lines, impl_out, 6, only)
+    elif only is not None and only.get('kind') == 'multi-shared':
+        multi_shared_cases(res, rng, None, only)
     else:
         # process pools first: no harness threads exist yet when they fork
         for procs in ([1, 2, 3, 4, 8] if T else [1, 2]):
@@ -657,6 +718,7 @@ def run(ctx: Ctx) -> Result:
                                   procs, rng.randint(1, 10 if T else 6), 900 + 10 * procs + k, same_object=False)
         multi_cases(res, lines, impl_out, 6)
         multi_nested_cases(res, rng, 20000 if T else 600)
+        multi_shared_cases(res, rng, None if T else 60)
         blocking_cases(res, rng, lines, impl_out, 6000 if T else 300, 100)
         forwarder_cases(res, rng, lines, impl_out, 5000 if T else 200, 500)
         threads_gated(res, rng, lines, impl_out, 2500 if T else 100, 2000)
@@ -691,6 +753,7 @@ def search(ctx: Ctx) -> Result:
     lines, impl_out = [], []
     multi_cases(res, lines, impl_out, 8)
     multi_nested_cases(res, rng, 2000)
+    multi_shared_cases(res, rng, None)
     blocking_cases(res, rng, lines, impl_out, 300, 100)
     forwarder_cases(res, rng, lines, impl_out, 200, 500)
     if not res.violations:
